@@ -191,88 +191,101 @@ def tradeable (st : State) (a : Nat) : Except Err Plan :=
     else .ok p
 
 def doCreate (I : Int → Int) (st : State) (alloc mRaw nRaw cRaw : Int) (L : Nat) (enabled : Bool)
-    (startTime planDur : Int) (liqPart : Dec) (vestDur vestStartAfter : Int) : Except Err State := do
+    (startTime planDur : Int) (liqPart : Dec) (vestDur vestStartAfter : Int) : Except Err State :=
   -- MsgCreatePlan.ValidateBasic
-  if !curveValid mRaw nRaw cRaw then throw .rej
-  if alloc ≤ 10 * oneToken then throw .rej
-  if planDur < 0 then throw .rej
-  if liqPart.raw < 0 ∨ decP < liqPart.raw then throw .rej
-  if vestDur < 0 ∨ vestStartAfter < 0 then throw .rej
+  if !curveValid mRaw nRaw cRaw then .error .rej
+  else if alloc ≤ 10 * oneToken then .error .rej
+  else if planDur < 0 then .error .rej
+  else if liqPart.raw < 0 ∨ decP < liqPart.raw then .error .rej
+  else if vestDur < 0 ∨ vestStartAfter < 0 then .error .rej
   -- msgServer.CreatePlan
-  if planDur < st.cfg.minPlanDur then throw .rej
-  if liqPart.raw < st.cfg.minLiqPart.raw then throw .rej
-  if vestDur < st.cfg.minVestDur then throw .rej
-  if st.plan.isSome then throw .rej
-  if alloc ≠ st.cfg.genAlloc then throw .rej
-  if L ≠ st.cfg.liqDec then throw .rej
+  else if planDur < st.cfg.minPlanDur then .error .rej
+  else if liqPart.raw < st.cfg.minLiqPart.raw then .error .rej
+  else if vestDur < st.cfg.minVestDur then .error .rej
+  else if st.plan.isSome then .error .rej
+  else if alloc ≠ st.cfg.genAlloc then .error .rej
+  else if L ≠ st.cfg.liqDec then .error .rej
+  else
   -- Keeper.CreatePlan
   let maxSell := findEquilibrium mRaw nRaw alloc liqPart
   let start := if enabled then (if startTime < st.now then st.now else startTime) else 0
   let pre := if enabled then start + planDur else 0
   -- Plan.ValidateBasic
-  if pre < start then throw .rej
-  if maxSell ≤ 0 ∨ alloc < maxSell then throw .rej
+  if pre < start then .error .rej
+  else if maxSell ≤ 0 ∨ alloc < maxSell then .error .rej
+  else
   let c := cost I L 0 st.cfg.creationFee
-  if c ≤ 0 then throw .rej
-  if st.liq 0 < c then throw .rej
+  if c ≤ 0 then .error .rej
+  else if st.liq 0 < c then .error .rej
+  else
   let p : Plan := { L := L, alloc := alloc, maxSell := maxSell, sold := st.cfg.creationFee,
                     claimed := st.cfg.creationFee, enabled := enabled, startTime := start, preLaunch := pre,
                     planDur := planDur, liqPart := liqPart, settled := false,
                     vest := { dur := vestDur, startAfter := vestStartAfter } }
-  return { st with plan := some p, modIro := st.modIro + alloc, liq := upd st.liq 0 (st.liq 0 - c),
-                   planLiq := st.planLiq + c }
+  .ok { st with plan := some p, modIro := st.modIro + alloc, liq := upd st.liq 0 (st.liq 0 - c),
+                planLiq := st.planLiq + c }
 
-def doBuy (I : Int → Int) (st : State) (a : Nat) (amt maxCost : Int) : Except Err State := do
-  if amt ≤ 0 ∨ maxCost ≤ 0 then throw .invalid
-  let p ← tradeable st a
-  if p.maxSell < p.sold + amt then throw .insufficientTokens
-  let c := cost I p.L p.sold (p.sold + amt)
-  match applyTakerFee c st.cfg.takerFee true with
-  | none => throw .invalidCost
-  | some (total, fee) =>
-    if maxCost < total then throw .maxCost
-    let l1 ← chargeFee st a fee
-    if l1 a < c then throw .funds
-    let l2 := upd l1 a (l1 a - c)
-    if st.modIro < amt then throw .funds
-    return { st with liq := l2, planLiq := st.planLiq + c, modIro := st.modIro - amt,
-                     iro := upd st.iro a (st.iro a + amt), plan := some { p with sold := p.sold + amt },
-                     trades := st.trades + 1 }
+def doBuy (I : Int → Int) (st : State) (a : Nat) (amt maxCost : Int) : Except Err State :=
+  if amt ≤ 0 ∨ maxCost ≤ 0 then .error .invalid else
+  match tradeable st a with
+  | .error e => .error e
+  | .ok p =>
+    if p.maxSell < p.sold + amt then .error .insufficientTokens else
+    match applyTakerFee (cost I p.L p.sold (p.sold + amt)) st.cfg.takerFee true with
+    | none => .error .invalidCost
+    | some (total, fee) =>
+      if maxCost < total then .error .maxCost else
+      match chargeFee st a fee with
+      | .error e => .error e
+      | .ok l1 =>
+        let c := cost I p.L p.sold (p.sold + amt)
+        if l1 a < c then .error .funds
+        else if st.modIro < amt then .error .funds
+        else .ok { st with liq := upd l1 a (l1 a - c), planLiq := st.planLiq + c, modIro := st.modIro - amt,
+                           iro := upd st.iro a (st.iro a + amt), plan := some { p with sold := p.sold + amt },
+                           trades := st.trades + 1 }
 
-def doBes (T : Int → Int → Option Int) (st : State) (a : Nat) (spend minTokens : Int) : Except Err State := do
-  if spend ≤ 0 ∨ minTokens ≤ 0 then throw .invalid
-  let p ← tradeable st a
-  match applyTakerFee spend st.cfg.takerFee false with
-  | none => throw .invalidCost
-  | some (net, fee) =>
-    match tokensForExactIn T p.L p.sold net with
-    | none => throw .curve
-    | some tokens =>
-      if tokens < minTokens then throw .minCost
-      if p.maxSell < p.sold + tokens then throw .insufficientTokens
-      let l1 ← chargeFee st a fee
-      if l1 a < net then throw .funds
-      let l2 := upd l1 a (l1 a - net)
-      if st.modIro < tokens then throw .funds
-      return { st with liq := l2, planLiq := st.planLiq + net, modIro := st.modIro - tokens,
-                       iro := upd st.iro a (st.iro a + tokens), plan := some { p with sold := p.sold + tokens },
-                       trades := st.trades + 1 }
+def doBes (T : Int → Int → Option Int) (st : State) (a : Nat) (spend minTokens : Int) : Except Err State :=
+  if spend ≤ 0 ∨ minTokens ≤ 0 then .error .invalid else
+  match tradeable st a with
+  | .error e => .error e
+  | .ok p =>
+    match applyTakerFee spend st.cfg.takerFee false with
+    | none => .error .invalidCost
+    | some (net, fee) =>
+      match tokensForExactIn T p.L p.sold net with
+      | none => .error .curve
+      | some tokens =>
+        if tokens < minTokens then .error .minCost
+        else if p.maxSell < p.sold + tokens then .error .insufficientTokens
+        else match chargeFee st a fee with
+          | .error e => .error e
+          | .ok l1 =>
+            if l1 a < net then .error .funds
+            else if st.modIro < tokens then .error .funds
+            else .ok { st with liq := upd l1 a (l1 a - net), planLiq := st.planLiq + net, modIro := st.modIro - tokens,
+                               iro := upd st.iro a (st.iro a + tokens), plan := some { p with sold := p.sold + tokens },
+                               trades := st.trades + 1 }
 
-def doSell (I : Int → Int) (st : State) (a : Nat) (amt minIncome : Int) : Except Err State := do
-  if amt ≤ 0 ∨ minIncome ≤ 0 then throw .invalid
-  let p ← tradeable st a
-  let c := cost I p.L (p.sold - amt) p.sold
-  match applyTakerFee c st.cfg.takerFee false with
-  | none => throw .invalidCost
-  | some (net, fee) =>
-    if net < minIncome then throw .minCost
-    if st.iro a < amt then throw .funds
-    if st.planLiq < c then throw .funds
-    let st1 := { st with iro := upd st.iro a (st.iro a - amt), modIro := st.modIro + amt,
-                         planLiq := st.planLiq - c, liq := upd st.liq a (st.liq a + c),
-                         plan := some { p with sold := p.sold - amt }, trades := st.trades + 1 }
-    let l1 ← chargeFee st1 a fee
-    return { st1 with liq := l1 }
+def doSell (I : Int → Int) (st : State) (a : Nat) (amt minIncome : Int) : Except Err State :=
+  if amt ≤ 0 ∨ minIncome ≤ 0 then .error .invalid else
+  match tradeable st a with
+  | .error e => .error e
+  | .ok p =>
+    match applyTakerFee (cost I p.L (p.sold - amt) p.sold) st.cfg.takerFee false with
+    | none => .error .invalidCost
+    | some (net, fee) =>
+      let c := cost I p.L (p.sold - amt) p.sold
+      if net < minIncome then .error .minCost
+      else if st.iro a < amt then .error .funds
+      else if st.planLiq < c then .error .funds
+      else
+        let st1 := { st with iro := upd st.iro a (st.iro a - amt), modIro := st.modIro + amt,
+                             planLiq := st.planLiq - c, liq := upd st.liq a (st.liq a + c),
+                             plan := some { p with sold := p.sold - amt }, trades := st.trades + 1 }
+        match chargeFee st1 a fee with
+        | .error e => .error e
+        | .ok l1 => .ok { st1 with liq := l1 }
 
 def doEnable (st : State) (a : Nat) : Except Err State :=
   match st.plan with
